@@ -27,6 +27,7 @@ Constants ==
   /\ Mul(Sqrt63, Sqrt63) = FromDigits(<<"9","2","2","3","3","7","2","0","3","0","9","2","6","2","4","9","0","0","1">>)
   /\ Fits64(Mul(Sqrt63, Sqrt63)) /\ ~Fits64(Mul(Add(Sqrt63, One), Add(Sqrt63, One)))
   /\ Fits64(Mul(Third63, FromInt(3))) /\ Mul(Add(Third63, One), FromInt(3)) = Add(TwoTo63, One)
+  /\ Mul(FromInt(107), RoundsDown) = Add(TwoTo63, FromInt(61))
   /\ Pattern(Alt01) = <<21845, 21845, 21845, 21845>> /\ Pattern(Neg(One)) = <<65535, 65535, 65535, 65535>>
   /\ Pattern(Nibbles) = <<57072, 39612, 22136, 4660>>            \* 0xdef0 0x9abc 0x5678 0x1234
   /\ Pattern(MinInt64) = <<0, 0, 0, 32768>>
